@@ -385,7 +385,7 @@ def scenario(rng, name, mods=None, nclients=None, cfg=None):
     mods = mods or rng.choice(["core", "xquery", "xquery", "class", "class"])
     cfg = cfg or rand_cfg(rng, mods)
     nclients = nclients or rng.choice([1, 1, 2, 3, 4])
-    ids = rng.sample([1, 2, 5, 7, 300, 65535, 0, -2, 2147483647], nclients)
+    ids = rng.sample([1, 2, 5, 7, 300, 65535, 0, -2, 2147483647, 8, 9, 10], nclients)
     scripts = {cid: client_script(rng, cid, cfg, mods) for cid in ids}
     ops = header(mods, cfg) + render_schedule(rng, scripts)
     if cfg.timeout and rng.random() < 0.5:
@@ -605,7 +605,7 @@ def challenge_scenario(rng, name):
     for cid in rng.sample([1, 2, 5, 7], rng.choice([1, 1, 2])):
         data = [("line", "N host.example"), ("line", "u ident"), ("line", "n nick"), ("line", "U user :real name")]
         rng.shuffle(data)
-        pw = ("line", "P :" + rng.choice(["+x acct pass", "+! acct pass", "+x! acct pass", "-! acct pass"]))
+        pw = ("line", "P :" + rng.choice(["+x acct pass", "+! acct pass", "+x! acct pass", "-! acct pass", "+ acct pass", "-x acct pass"]))
         k = rng.randint(0, len(data))
         ev = [("C", rng.choice(["1.2.3.4", "0::1"]), "1234")] + data[:k] + [pw]
         rest = data[k:]
@@ -614,6 +614,10 @@ def challenge_scenario(rng, name):
             flow.append(("reply", "X", "login.srv", rng.choice(["MORE challenge", "MORE c2", "AGAIN retry"]), "cur"))
             flow.append(("line", "P :" + rng.choice(["response", "+x acct pass2", "-! acct pass"])))
         flow.append(("reply", "X", "login.srv", rng.choice(["OK acct", "OK", "NO bad", "OK acct:1"]), "cur"))
+        if rng.random() < 0.4:
+            # logs in a second time (other modes) and is vouched again
+            flow.append(("line", "P :" + rng.choice(["+x acct pass2", "+! acct pass2", "-x acct pass2"])))
+            flow.append(("reply", "X", "login.srv", rng.choice(["OK acct", "OK acct2:5", "OK"]), "cur"))
         # the remaining data items arrive somewhere inside the flow
         for item in rest:
             flow.insert(rng.randint(0, len(flow)), item)
@@ -631,6 +635,36 @@ def challenge_scenario(rng, name):
         ops.append("elapse")
     ops.append("eof")
     return Case(name, ops, tags={"mods": mods})
+
+
+LOGS_SECTIONS = [[], [("*.>=info", "file:all.log")], [("iauth.*", "file:iauth.log"), ("core.*", "file:core.log")],
+                 [("config.debug", "file:dbg.log")], [("*.*", "file:a.log"), ("config.>=warning", "file:b.log")]]
+BROKEN_CONFS = ["iauth {\n timeout 5\n", "iauth_xquery { a ( b, c }\n", "\"unterminated", "iauth { timeout } }\n", "x y z w;\n", "a { b ( c d ) }\n"]
+
+
+def noisy_scenario(rng, name):
+    """C09: events that make the daemon log warnings and errors (failed reloads, bad info requests,
+    unparsable typed values, garbage lines) under every kind of logs section, outside debug mode"""
+    mods = rng.choice(["core", "xquery", "class"])
+    cfg = rand_cfg(rng, mods)
+    cfg.logs = rng.choice(LOGS_SECTIONS)
+    ids = rng.sample([1, 2, 5, 7], 2)
+    scripts = {cid: client_script(rng, cid, cfg, mods) for cid in ids}
+    ops = render_schedule(rng, scripts)
+    for _ in range(rng.randint(1, 4)):
+        pos = rng.randint(0, len(ops))
+        r = rng.random()
+        if r < 0.4:
+            ops.insert(pos, "reload %s bad=1" % hx(rng.choice(BROKEN_CONFS)))
+        elif r < 0.6:
+            ops.insert(pos, inl("-1 ? " + rng.choice(["bogus", ":what now", "STATS"])))
+        elif r < 0.8:
+            bad = Cfg(timeout=cfg.timeout, services=cfg.services, rules=cfg.rules, logs=cfg.logs)
+            txt = bad.text().replace("timeout %d;" % cfg.timeout, "timeout %s;" % rng.choice(["soon", "1x", "\"\""]))
+            ops.insert(pos, "reload %s %s" % (hx(txt), bad.fields()))
+        else:
+            ops.insert(pos, inl(rng.choice(MALFORMED)))
+    return Case(name, header(mods, cfg) + ops + ["eof"], tags={"mods": mods})
 
 
 def gen_cases(prop, tier, seed):
@@ -675,7 +709,7 @@ def gen_cases(prop, tier, seed):
             if i % 3 == 2:
                 cases.append(malformed_case(rng, "mal/%d" % i))
                 continue
-            base = scenario(rng, "c08/%d/base" % i)
+            base = scenario(rng, "c08/%d/base" % i, nclients=(rng.choice([6, 8]) if i % 4 == 0 else None))
             # chunking and junk variants are compared on the `in` stream only: no timeouts in between
             body = [l for l in base.body() if not l.startswith("timeout ") and l != "elapse"]
             base = Case(base.name, body, tags=dict(base.tags, group="c08/%d" % i, role="base"))
@@ -693,6 +727,11 @@ def gen_cases(prop, tier, seed):
                         prev = c
                 cases.append(Case("c08/%d/chunk%d" % (i, k), head + ["in " + hx(c) for c in chunks] + ["eof"],
                                   tags={"group": "c08/%d" % i, "role": "chunk"}))
+            # the whole stream in a single write (a burst from the server)
+            for off in range(0, len(stream), 60000):
+                pass
+            cases.append(Case("c08/%d/burst" % i, head + ["in " + hx(stream[o:o + 60000]) for o in range(0, max(len(stream), 1), 60000)] + ["eof"],
+                              tags={"group": "c08/%d" % i, "role": "chunk"}))
             # peer death at a random byte: a prefix of the stream, then end of input
             cut = rng.randint(0, len(stream))
             cases.append(Case("c08/%d/prefix" % i, head + ["in " + hx(stream[:cut])] + ["eof"],
@@ -712,11 +751,30 @@ def gen_cases(prop, tier, seed):
         for i in range(n):
             mods = rng.choice(["xquery", "class", "class"])
             old = rand_cfg(rng, mods, timeout=0)
-            new = mutate_cfg(rng, old, mods)
+            # one, two or three reloads in a row (an entry added by one reload and edited by the next)
+            chain = [mutate_cfg(rng, old, mods)]
+            for _ in range(rng.choice([0, 0, 1, 1, 2])):
+                chain.append(mutate_cfg(rng, chain[-1], mods))
+            if mods == "class" and i % 3 == 0:
+                # a criterion (or a service) that one reload adds and the next one edits in place
+                base = chain[0]
+                rules = [(n, list(kv)) for n, kv in base.rules] or [("a", [("class", "cls-a")])]
+                k = rng.randrange(len(rules))
+                crit, v1, v2 = rng.choice([("hostname", "nomatch", "*"), ("hostname", "*", "nomatch"), ("username", "nomatch", "*"),
+                                           ("address", "9.9.9.9", "*"), ("class", "one", "two"), ("account", "nomatch", "*")])
+                n, kv = rules[k]
+                kv0 = [x for x in kv if x[0] != crit]
+                r0, r1, r2 = list(rules), list(rules), list(rules)
+                r0[k] = (n, kv0)
+                r1[k] = (n, kv0 + [(crit, v1)])
+                r2[k] = (n, kv0 + [(crit, v2)])
+                mk = lambda rs: Cfg(timeout=0, services=base.services, rules=rs)
+                old, chain = mk(r0), [mk(r1), mk(r2)]
+            new = chain[-1]
             probe = {cid: client_script(rng, cid, new, mods) for cid in rng.sample([1, 2, 5, 7], 2)}
             pops = render_schedule(rng, probe) + [inl("-1 ? :config")]
-            cases.append(Case("c17/%d/reload" % i, header(mods, old) + [new.op("reload")] + pops + ["eof"],
-                              tags={"group": "c17/%d" % i, "role": "reload", "mods": mods}))
+            cases.append(Case("c17/%d/reload" % i, header(mods, old) + [c.op("reload") for c in chain] + pops + ["eof"],
+                              tags={"group": "c17/%d" % i, "role": "reload", "mods": mods, "nreload": len(chain)}))
             cases.append(Case("c17/%d/fresh" % i, header(mods, new) + pops + ["eof"],
                               tags={"group": "c17/%d" % i, "role": "fresh", "mods": mods}))
         return cases
@@ -728,6 +786,8 @@ def gen_cases(prop, tier, seed):
             cases.append(class_scenario(rng, "cls/%d" % i) if i % 4 else scenario(rng, "scn/%d" % i, mods="class"))
         elif prop == "C06":
             cases.append(scenario(rng, "scn/%d" % i, mods=rng.choice(["xquery", "class"])) if i % 6 else challenge_scenario(rng, "chl/%d" % i))
+        elif prop == "C09" and i % 3 == 1:
+            cases.append(noisy_scenario(rng, "noisy/%d" % i))
         elif prop in ("C02", "C03", "C05", "C01", "C10") and i % 5 == 2:
             cases.append(challenge_scenario(rng, "chl/%d" % i))
         else:
@@ -759,9 +819,17 @@ def mutate_cfg(rng, cfg, mods):
         elif mods == "class" and rules:
             k = rng.randrange(len(rules))
             n, kv = rules[k]
-            kv = [x for x in kv if x[0] != "class"] + [("class", rng.choice(["edited", "other"]))]
-            if rng.random() < 0.5:
-                kv = [x for x in kv if x[0] != "hostname"] + [("hostname", rng.choice(["*", "nomatch", "host.example"]))]
+            r2 = rng.random()
+            if r2 < 0.4:
+                kv = [x for x in kv if x[0] != "class"] + [("class", rng.choice(["edited", "other"]))]
+            if r2 > 0.2:
+                crit, vals = rng.choice([("hostname", ["*", "nomatch", "host.example"]), ("address", ["1.2.3.4", "10.*", "*", "9.9.9.9"]),
+                                         ("username", ["*", "ident", "nomatch"]), ("account", ["*", "acct", "nomatch"])])
+                have = [x for x in kv if x[0] == crit]
+                if have and rng.random() < 0.3:
+                    kv = [x for x in kv if x[0] != crit]                       # criterion removed
+                else:
+                    kv = [x for x in kv if x[0] != crit] + [(crit, rng.choice(vals))]   # added or edited
             rules[k] = (n, kv)
     return Cfg(timeout=cfg.timeout, services=services, rules=rules)
 
@@ -884,11 +952,12 @@ def judge_all(prop, cases, impl, model, spec):
             fre = [m for m in members if m[0].tags.get("role") == "fresh"]
             if rel and fre:
                 hl = header_len(rel[0][0]) - 1
-                a = _probe_view(rel[0][1][hl + 1:])
+                nrel = rel[0][0].tags.get("nreload", 1)
+                a = _probe_view(rel[0][1][hl + nrel:])
                 bb = _probe_view(fre[0][1][hl:])
                 if a != bb:
                     d = core.first_diff(a, bb)
-                    finding(rel[0][0], (d or 0) + hl + 1, "C17: after the reload the daemon does not behave like one freshly started on the new file: %r vs %r" % (
+                    finding(rel[0][0], (d or 0) + hl + nrel, "C17: after the reload the daemon does not behave like one freshly started on the new file: %r vs %r" % (
                         a[d] if d is not None and d < len(a) else None, bb[d] if d is not None and d < len(bb) else None), [rel[0], fre[0]])
     return out
 
